@@ -290,6 +290,8 @@ ORACLES = {
                     'by and_ / or_ in either operand order', 150, 2000, kind='subquery_operand')],
     'C07': [_oracle('one-shot iterator domains: pulls per result, nothing pulled twice (cache on)', 200, 3000, kind='lazy'),
             _oracle('one-shot iterator domains (cache off)', 100, 1500, kind='lazy', caching=False),
+            _oracle('one-shot iterator domains, conditions built from predicates (function and class form, one or two arguments)', 150,
+                    2500, kind='lazy', vocab=['pred', 'pred1', 'cmp', 'pred1']),
             _oracle('one-shot iterator domains of 25 elements, no condition at all (an(entity(x)), an(x), an(set_of([x]))): the '
                     'k-th result after exactly k pulls', 60, 600, kind='lazy', no_condition=True, n=25)],
     'C10': [_oracle('for_all over conditions mentioning the universal variable, the free variables, both or neither', 250, 4000, kind='forall'),
